@@ -1071,10 +1071,11 @@ class Simplifier(pysmt.walkers.DagWalker):
                 # smtlib2 semantics of integer division:
                 # r > 0 : l / r == floor(float(l) / r)
                 # r < 0 : l / r == ceil(float(l) / r)
+                # (exact integer arithmetic: floats lose precision)
                 if r > 0:
-                    return self.manager.Int(math.floor(float(l) / r))
+                    return self.manager.Int(l // r)
                 if r < 0:
-                    return self.manager.Int(math.ceil(float(l) / r))
+                    return self.manager.Int(-(l // -r))
 
         if sl.is_constant():
             if sl.is_zero():
